@@ -452,6 +452,10 @@ pub fn run(ctx: &Ctx) -> Result<Run, String> {
         stats.samples.push(serde_json::to_value(c).unwrap());
     }
     let (csched, _) = contention(&mut stats)?;
+    // a credential is used with ITS key: authenticators whose stores hold the same credential id
+    // with different keys (for different RPs) on one thread
+    let cst = super::inst::colliding_sweep("shared-state");
+    stats.merge(cst);
     let n = cs.len() as u64 + csched;
     let mut run = Run::from_stats(
         "model_checking",
@@ -465,6 +469,9 @@ pub fn run(ctx: &Ctx) -> Result<Run, String> {
 }
 
 pub fn replay(_ctx: &Ctx, case: &Value) -> Result<Vec<Finding>, String> {
+    if let Some(fs) = super::inst::colliding_replay(case, "shared-state") {
+        return Ok(fs);
+    }
     if let Some(cn) = case.get("contention") {
         let lock = cn["lock"].as_str().unwrap_or("mutex").to_string();
         let schedule: Vec<usize> = serde_json::from_value(cn["schedule"].clone()).map_err(|e| e.to_string())?;
